@@ -296,6 +296,7 @@ def canon_text(text: str) -> str:
     ptext = text
     for a, b in pseudo:
         ptext = ptext.replace(a, b)
+    ptext = re.sub(r"\$(\d+(?:_\d+)*)", r"_PSEUDO_DOLLAR_\1_", ptext)
     kwfrag = re.match(r"^[A-Za-z_]\w*=[^=]", ptext) is not None  # "name=value[, ...]": keyword arguments, not an assignment
     for mode in (("eval",) if kwfrag else ("eval", "exec")):
         try:
@@ -310,7 +311,7 @@ def canon_text(text: str) -> str:
             res = " ".join(ast.unparse(tree).split())
             for a, b in pseudo:
                 res = res.replace(b, a)
-            return res
+            return re.sub(r"_PSEUDO_DOLLAR_(\d+(?:_\d+)*)_", r"$\1", res)
         except Exception:
             break
     # fragments: "elt for x in xs" / "a, b" -> [..]; "k: v" -> {..}; "a=1, b=2" -> f(..)
@@ -328,7 +329,7 @@ def canon_text(text: str) -> str:
             res = res[cut[0]:cut[1]]
             for a, b in pseudo:
                 res = res.replace(b, a)
-            return res
+            return re.sub(r"_PSEUDO_DOLLAR_(\d+(?:_\d+)*)_", r"$\1", res)
         except Exception:
             break
     # not parseable (a prefix / fragment): textual folding of constant names
